@@ -547,7 +547,7 @@ fn probs_of(ws: &[M]) -> Vec<f64> {
 }
 
 /// Err("hang…") if the sampling did not finish within the deadline (a stuck sample() call: abandoned)
-fn sample_counts<D: Distribution<usize> + Sync + Send + Clone + 'static>(d: &D, len: usize, n: u64, seed: u64) -> Result<Vec<u64>, String> {
+fn sample_counts<D: Distribution<usize> + Send + Clone + 'static>(d: &D, len: usize, n: u64, seed: u64) -> Result<Vec<u64>, String> {
     use std::sync::atomic::AtomicBool;
     static GAVE_UP: AtomicBool = AtomicBool::new(false);
     if GAVE_UP.load(Ordering::Relaxed) {
@@ -565,12 +565,13 @@ fn sample_counts<D: Distribution<usize> + Sync + Send + Clone + 'static>(d: &D, 
     }
 }
 
-fn sample_counts_inner<D: Distribution<usize> + Sync>(d: &D, len: usize, n: u64, seed: u64) -> Result<Vec<u64>, String> {
+fn sample_counts_inner<D: Distribution<usize> + Send + Clone>(d: &D, len: usize, n: u64, seed: u64) -> Result<Vec<u64>, String> {
     let chunks = 16u64;
     let per = n / chunks;
-    let parts: Vec<Result<Vec<u64>, String>> = (0..chunks)
+    let clones: Vec<(u64, D)> = (0..chunks).map(|c| (c, d.clone())).collect();
+    let parts: Vec<Result<Vec<u64>, String>> = clones
         .into_par_iter()
-        .map(|c| {
+        .map(|(c, d)| {
             let mut rng = BaseRng::from_env(hseed(&[seed, c]));
             let mut counts = vec![0u64; len + 1];
             let r = catch(|| {
@@ -594,7 +595,7 @@ fn sample_counts_inner<D: Distribution<usize> + Sync>(d: &D, len: usize, n: u64,
 
 pub fn alias_sampling<W: Wt>(ctx: &Ctx, vectors: usize, n: u64)
 where
-    WeightedAliasIndex<W>: Sync + Send + Clone,
+    WeightedAliasIndex<W>: Send + Clone,
 {
     let lat = lattice();
     let mut r = BaseRng::from_env(hseed(&[ctx.seed, crate::rng::hstr(W::NAME), 0xC08]));
@@ -751,7 +752,7 @@ pub fn alias_random_structural<W: Wt>(ctx: &Ctx, cases: u32) {
 
 fn c08_one<W: Wt>(ctx: &Ctx)
 where
-    WeightedAliasIndex<W>: Sync + Send + Clone,
+    WeightedAliasIndex<W>: Send + Clone,
 {
     let thorough = ctx.thorough();
     alias_exhaustive::<W>(ctx, if W::IS_FLOAT { 5 } else { 6 });
@@ -1243,9 +1244,22 @@ pub fn run_c09(ctx: &Ctx) {
 /// Build a tree by replaying a (valid part of a) history; returns tree and model.
 /// A panic inside an operation is returned as Err (the state cannot be built: reported by the caller).
 fn state_from_history<W: Wt>(ops: &[Op]) -> Option<Result<(WeightedTreeIndex<W>, Vec<M>), String>> {
+    state_from_history_sampling::<W>(ops, None)
+}
+
+/// same, drawing one sample between operations (history of *sampling and* updating: anything a sampler caches
+/// must be invalidated by every mutation)
+fn state_from_history_sampling<W: Wt>(ops: &[Op], sample_seed: Option<u64>) -> Option<Result<(WeightedTreeIndex<W>, Vec<M>), String>> {
     let mut model: Vec<M> = vec![];
     let mut tree = WeightedTreeIndex::<W>::new(Vec::<W>::new()).ok()?;
+    let mut srng = sample_seed.map(VRng::from_env);
     for (step, op) in ops.iter().enumerate() {
+        if let Some(rng) = srng.as_mut() {
+            if tree.is_valid() {
+                // panics here are judged by the sampling phases, not while building
+                let _ = catch(|| tree.try_sample(rng));
+            }
+        }
         let r = catch(|| match op {
             Op::New(ws) => {
                 if let Ok(t) = WeightedTreeIndex::<W>::new(ws.iter().map(|&m| W::from_m(m)).collect::<Vec<W>>()) {
@@ -1386,7 +1400,7 @@ fn tree_sample_check<W: Wt>(tree: &WeightedTreeIndex<W>, model: &[M], rng: &mut 
 
 fn c10_one<W: Wt>(ctx: &Ctx)
 where
-    WeightedTreeIndex<W>: Sync + Send + Clone,
+    WeightedTreeIndex<W>: Send + Clone,
 {
     let t = ctx.thorough();
     let checked = cfg!(debug_assertions);
@@ -1404,7 +1418,11 @@ where
         };
         let muts = if si % 4 == 0 { 0 } else { r.random_range(1..=60usize) };
         let ops = gen_history::<W>(&mut r, len, muts);
-        let (tree, model) = match state_from_history::<W>(&ops) {
+        let built = if si % 2 == 1 { state_from_history_sampling::<W>(&ops, Some(hseed(&[ctx.seed, si as u64, 0x5A3]))) } else { state_from_history::<W>(&ops) };
+        if si % 2 == 1 {
+            ctx.class("c10:states_built_with_sampling_between_operations", 1);
+        }
+        let (tree, model) = match built {
             Some(Ok(x)) => x,
             Some(Err(msg)) => {
                 viol(ctx, "WeightedTreeIndex", W::NAME, "panic_building_state", "history", format!("WeightedTreeIndex<{}>: an operation with an in-range index panicked while building a state: {}", W::NAME, msg), json!({"kind": "tree", "tree": TreeCase { wt: W::NAME.into(), ops: if ops.len() <= 400 { ops.clone() } else { vec![] } }}));
@@ -1548,9 +1566,10 @@ fn c10_f32_exhaustive(ctx: &Ctx) {
         }
         let seed = hseed(&[ctx.seed, ti as u64, 0xF32F]);
         let n = model.len();
-        let counts: Vec<u64> = (0..128u64)
+        let clones: Vec<(u64, WeightedTreeIndex<f32>)> = (0..128u64).map(|b| (b, tree.clone())).collect();
+        let counts: Vec<u64> = clones
             .into_par_iter()
-            .map(|b| {
+            .map(|(b, tree)| {
                 let mut c = vec![0u64; n + 1];
                 let base = VRng::mix(seed);
                 for i in 0..(1u64 << 16) {
